@@ -295,6 +295,10 @@ func compareTrees(o *pbt.Outcome, what, how string, a, b map[string]string, spec
 					k = strings.TrimSuffix(k, "|plain-definition") + "|alias-of-alias-chain"
 				}
 			}
+			if fileRole(p) == "api.md:api.md" && len(aliasRelated) > 0 && diffClass(a[p], bv) == "content" {
+				// the documentation of a spec that has alias definitions (same listed root cause as for the models)
+				k += "|spec-with-alias-definitions"
+			}
 			if !seen[k] {
 				seen[k] = true
 				o.Fail("C07|"+how+"|"+what+"|"+k, "%s: %s differs between two runs on the same input\n%s", what, p, firstDiff(a[p], bv))
